@@ -28,6 +28,8 @@ def handleThr (st : State) (line : String) : State × String :=
   | "spec" :: rest => (st, specCmd rest)
   | "select" :: rest => (st, selectCmd selectP rest)
   | "selectp" :: rest => (st, selectCmd selectpP rest)
+  | "selects" :: rest => (st, selectCmd selectSetP rest)
+  | "selectps" :: rest => (st, selectCmd selectpSetP rest)
   | "cutoff" :: rest => (st, selectCmd cutoffP rest)
   | "row" :: rest => (st, selectCmd rowP rest)
   | toks =>
